@@ -16,9 +16,10 @@ $CX 2>/tmp/demo_$ID.log || { echo "does not compile with the change"; tail -3 /t
 timeout 120 /tmp/demo_$ID >/dev/null 2>&1; MUT=$?
 TESTS=$(bash /verif/tools/baseline_off.sh "$WT" | tail -1)
 echo "[$ID] demo clean rc=$CLEAN mutated rc=$MUT ; $TESTS"
+CQ=/var/tmp/coq_$ID; rm -rf "$CQ" "$CQ.ev"; cp -a /verif/coq "$CQ"     # private Coq tree: generated tables follow the tree under test
 RES=""
 for P in "$@"; do
-  L=$(VERIF_EVIDENCE_DIR=/var/tmp/verif_side_evidence VERIF_REPO="$WT" timeout 1800 python3 /verif/tools/check.py "$P" --tier quick 2>&1 | grep -E "^VIOLATION|^KNOWN-FINDING|\[verif\] $P" | head -4 | tr '\n' ' ')
+  L=$(VERIF_COQ_DIR="$CQ" VERIF_EVIDENCE_DIR="$CQ.ev" VERIF_REPO="$WT" timeout 1800 python3 /verif/tools/check.py "$P" --tier quick 2>&1 | grep -E "^VIOLATION|^KNOWN-FINDING|\[verif\] $P" | head -4 | tr '\n' ' ')
   echo "[$ID] $P: $L"
   if echo "$L" | grep -q "VIOLATION"; then RES="$RES $P:caught"; else RES="$RES $P:missed"; fi
 done
@@ -34,3 +35,4 @@ json.dump(meta, open(out + "/meta.json", "w"), indent=1)
 PY
 rm -f "$OUT/agent_meta.json" /tmp/demo_$ID /tmp/demo_$ID.log
 git -C /repo worktree remove --force "$WT"
+rm -rf "$CQ" "$CQ.ev"
